@@ -18,6 +18,7 @@ const char *vk_only;
 double vk_deadline_s;
 int vk_nviol;
 int vk_want_trace;
+int vk_want_wtrap;
 static FILE *vk_out;
 static double vk_t0;
 static int vk_argc;
@@ -58,6 +59,7 @@ void vk_init(int argc, char **argv)
 	if (vk_opt("replay", &v)) vk_replay_mode = 1;
 	if (vk_opt("out", &v)) vk_out = fopen(v, "w");
 	vk_want_trace = vk_opt("trace-isa", &v);
+	vk_want_wtrap = vk_opt("wtrap", &v);
 	if (!vk_out) vk_out = stdout;
 	setvbuf(vk_out, NULL, _IOLBF, 0);
 	vk_faults_install();
@@ -177,10 +179,12 @@ void vk_note(const char *fmt, ...)
 	vk_emit("{\"type\":\"note\",\"text\":\"%s\"}", e);
 }
 void vk_trace_finish(void);
+void vk_wtrap_finish(void);
 static void tr_set_name(const char *name);
 void vk_finish(void)
 {
 	vk_trace_finish();
+	vk_wtrap_finish();
 	for (int i = 0; i < nstats; i++)
 		vk_emit("{\"type\":\"stat\",\"name\":\"%s\",\"value\":%llu,\"max\":%d}", stats[i].name, (unsigned long long)stats[i].v, stats[i].is_max);
 	for (int i = 0; i < ndsets; i++) {
@@ -298,6 +302,37 @@ const char *vk_describe_rip(uintptr_t rip, char *buf, size_t n)
 	return buf;
 }
 
+static void vk_install_trap_handler(void);
+/* ---------- write trap on the library's static data (C18a) ---------- */
+extern char __start_isal_data[] __attribute__((weak)), __stop_isal_data[] __attribute__((weak)), __start_isal_bss[] __attribute__((weak)), __stop_isal_bss[] __attribute__((weak));
+int vk_wtrap_on;
+static int wt_pending; static uintptr_t wt_page;
+static uintptr_t wt_text_lo, wt_text_hi;
+#define WT_MAX 256
+static struct { uintptr_t addr, rip; uint64_t n; } wt_log[WT_MAX]; static int wt_n;
+static uint64_t wt_harness_writes, wt_library_writes;
+static int wt_in_statics(uintptr_t a)
+{
+	return (__start_isal_data && a >= (uintptr_t)__start_isal_data && a < (uintptr_t)__stop_isal_data) || (__start_isal_bss && a >= (uintptr_t)__start_isal_bss && a < (uintptr_t)__stop_isal_bss);
+}
+static void wt_protect(int ro)
+{
+	int pr = ro ? PROT_READ : PROT_READ | PROT_WRITE;
+	if (__start_isal_data) mprotect(__start_isal_data, __stop_isal_data - __start_isal_data, pr);
+	if (__start_isal_bss) mprotect(__start_isal_bss, __stop_isal_bss - __start_isal_bss, pr);
+}
+void vk_wtrap_enable(void)
+{
+	if (!__start_isal_data) { vk_note("write trap unavailable in this build variant"); return; }
+	wt_text_lo = ~0ul; wt_text_hi = 0;
+	for (unsigned i = 0; i < vk_nsyms; i++) if (vk_symtab[i].type == 'T') { uintptr_t a = (uintptr_t)vk_symtab[i].addr; if (a < wt_text_lo) wt_text_lo = a; if (a > wt_text_hi) wt_text_hi = a; }
+	wt_text_hi += 1 << 16;
+	vk_install_trap_handler();
+	wt_protect(1);
+	vk_wtrap_on = 1;
+}
+void vk_wtrap_suspend(int off) { if (vk_wtrap_on) wt_protect(!off); }
+
 /* ---------- faults ---------- */
 sigjmp_buf vk_jmp;
 volatile int vk_armed;
@@ -306,6 +341,21 @@ static void (*vk_chain)(int, siginfo_t *, void *);
 static void on_fault(int sig, siginfo_t *si, void *uc_)
 {
 	ucontext_t *uc = uc_;
+	if (vk_wtrap_on && sig == SIGSEGV && (uc->uc_mcontext.gregs[REG_ERR] & 2) && wt_in_statics((uintptr_t)si->si_addr)) {
+		/* a store into the library's static data: log it, let exactly this instruction through, re-protect in the trap handler */
+		uintptr_t a = (uintptr_t)si->si_addr, rip = uc->uc_mcontext.gregs[REG_RIP];
+		if (rip >= wt_text_lo && rip < wt_text_hi) {
+			int i; wt_library_writes++;
+			for (i = 0; i < wt_n && wt_log[i].addr != a; i++) ;
+			if (i == wt_n && wt_n < WT_MAX) { wt_log[wt_n].addr = a; wt_log[wt_n].rip = rip; wt_n++; }
+			if (i < WT_MAX) wt_log[i].n++;
+		} else wt_harness_writes++;
+		wt_page = a & ~4095ul;
+		mprotect((void *)wt_page, 4096, PROT_READ | PROT_WRITE);
+		wt_pending = 1;
+		uc->uc_mcontext.gregs[REG_EFL] |= 0x100;
+		return;
+	}
 	if (!vk_armed) {
 		char b[200];
 		int n = snprintf(b, sizeof b, "vkit: unexpected signal %d addr %p rip %llx outside VK_TRY\n", sig, si->si_addr,
@@ -519,6 +569,7 @@ static void on_trap(int sig, siginfo_t *si, void *uc_)
 	ucontext_t *uc = uc_;
 	uintptr_t rip = uc->uc_mcontext.gregs[REG_RIP];
 	(void)sig; (void)si;
+	if (wt_pending) { wt_pending = 0; mprotect((void *)wt_page, 4096, PROT_READ); if (!vk_trace_on) uc->uc_mcontext.gregs[REG_EFL] &= ~0x100ull; return; }
 	tr_traps++;
 	if (rip < tr_lo || rip >= tr_hi) return;
 	uint64_t k = ((uint64_t)tr_cur << 40) | (rip - tr_lo) | (1ull << 63);
@@ -683,4 +734,36 @@ void vk_trace_finish(void)
 	vk_emit("{\"type\":\"stat\",\"name\":\"single_step_traps\",\"value\":%llu,\"max\":0}", (unsigned long long)tr_traps);
 	vk_emit("{\"type\":\"stat\",\"name\":\"traced_instruction_addresses\",\"value\":%zu,\"max\":0}", nu);
 	free(addrs); free(cls);
+}
+
+static void vk_install_trap_handler(void)
+{
+	struct sigaction sa;
+	memset(&sa, 0, sizeof sa);
+	sa.sa_sigaction = on_trap; sa.sa_flags = SA_SIGINFO | SA_ONSTACK;
+	sigemptyset(&sa.sa_mask);
+	sigaction(SIGTRAP, &sa, NULL);
+}
+void vk_wtrap_finish(void)
+{
+	if (!vk_wtrap_on) return;
+	wt_protect(0);
+	vk_stat("static_writes_by_library_code", wt_library_writes);
+	vk_stat("static_writes_by_harness", wt_harness_writes);
+	for (int i = 0; i < wt_n; i++) {
+		uintptr_t off = 0; const char *sn = vk_sym_at(wt_log[i].addr, &off);
+		char rp[160]; vk_describe_rip(wt_log[i].rip, rp, sizeof rp);
+		size_t l = sn ? strlen(sn) : 0;
+		int allowed = sn && off < 8 && ((l > 11 && !strcmp(sn + l - 11, "_dispatched")) || !strcmp(sn, "self_test_status"));
+		vk_distinct("written_statics", wt_log[i].addr);
+		if (allowed) { vk_stat("writes_to_allowed_statics", wt_log[i].n); continue; }
+		/* not a global symbol start: ask nm for the nearest (possibly local) symbol */
+		char local[128] = "", cmd[128]; snprintf(cmd, sizeof cmd, "nm -n /proc/%d/exe", getpid());
+		FILE *f = popen(cmd, "r"); char line[256];
+		while (f && fgets(line, sizeof line, f)) { unsigned long a; char ty, nm[160]; if (sscanf(line, "%lx %c %159s", &a, &ty, nm) == 3 && a <= wt_log[i].addr) snprintf(local, sizeof local, "%s+0x%lx", nm, (unsigned long)(wt_log[i].addr - a)); else if (a > wt_log[i].addr) break; }
+		if (f) pclose(f);
+		char key[200]; snprintf(key, sizeof key, "static_write:%s", local[0] ? local : (sn ? sn : "?"));
+		for (char *c = key; *c; c++) if (*c == '+') { *c = 0; break; }
+		vk_violation("C18", key, NULL, "library code at %s writes to static storage %s (%llu stores): writable static state other than the dispatch bindings and the self-test verdict", rp, local[0] ? local : (sn ? sn : "?"), (unsigned long long)wt_log[i].n);
+	}
 }
